@@ -79,10 +79,24 @@ Expect(c) ==
         THEN [cfg |-> c, resultant |-> [d \in 1..c.dim |-> IF d = 1 \/ (d = 2 /\ c.form = "array") THEN RI(5) ELSE RI(-2)], moments |-> <<>>, measure |-> Measure(reg)]
         ELSE [cfg |-> c, resultant |-> Resultant(reg, dens, t), moments |-> Moments(reg, dens, t), measure |-> Measure(reg)]
 
-Init == cs \in {c \in Cases : Valid(c)}
+(* ---- beams: a force per unit length q, given by its GLOBAL components, on a straight member of length 3 drawn from the     *)
+(* origin along t (aligned with x, or inclined in the plane / in space).  Whatever shape functions carry the load (Lagrange    *)
+(* for Timoshenko members, Hermitian for Euler-Bernoulli ones, which produce nodal couples too), the nodal forces sum to       *)
+(* 3 q and forces and couples together have the moment (9/2) t x q about the origin.                                           *)
+BeamDirs == [x |-> <<One, Zero, Zero>>, inclined2 |-> <<R(3,5), R(4,5), Zero>>, inclined3 |-> <<R(2,3), R(2,3), R(1,3)>>]
+BeamLoads == [transverse |-> <<Zero, RI(-2), Zero>>, oblique |-> <<One, RI(-2), Zero>>, spatial |-> <<One, RI(-2), R(3,2)>>]
+Cross(a, b) == <<Sub(Mul(a[2], b[3]), Mul(a[3], b[2])), Sub(Mul(a[3], b[1]), Mul(a[1], b[3])), Sub(Mul(a[1], b[2]), Mul(a[2], b[1]))>>
+BeamCases == {[kind |-> "beamLine", dim |-> d, theory |-> th, dir |-> di, load |-> lo] :
+                 d \in {2, 3}, th \in {"EB", "Timo"}, di \in DOMAIN BeamDirs, lo \in DOMAIN BeamLoads}
+BeamValid(c) == /\ (c.dim = 2) => (c.dir # "inclined3" /\ c.load # "spatial")
+ExpectBeam(c) == LET t == BeamDirs[c.dir]  q == BeamLoads[c.load] IN
+    [cfg |-> c, t |-> t, q |-> q, resultant |-> [k \in 1..3 |-> Mul(RI(3), q[k])], moment |-> LET m == Cross(t, q) IN [k \in 1..3 |-> Mul(R(9, 2), m[k])], measure |-> RI(3)]
+IsBeam(c) == c.kind = "beamLine"
+
+Init == cs \in {c \in Cases : Valid(c)} \cup {c \in BeamCases : BeamValid(c)}
 Next == UNCHANGED cs
 Spec == Init /\ [][Next]_vars
 (* sanity: the measure of a region is positive; a zero density has a zero resultant *)
-OracleOK == IsPos(Expect(cs).measure)
-EmitOK == Emit => PrintT(<<"CASE", ToJson(Expect(cs))>>)
+OracleOK == IsBeam(cs) \/ IsPos(Expect(cs).measure)
+EmitOK == Emit => PrintT(<<"CASE", ToJson(IF IsBeam(cs) THEN ExpectBeam(cs) ELSE Expect(cs))>>)
 =============================================================================
